@@ -29,7 +29,7 @@ ASSUMPTIONS = [
     "grouping; scalar multiples are only passed to diagonalize_qwc_pauli_words, whose contract (is_pauli_word) admits SProd.",
     "Optimality of the colouring (number of groups) is not asserted.",
 ]
-BUDGET = {"quick": {"examples": 2500}, "thorough": {"examples": 60000, "shards": 16}}
+BUDGET = {"quick": {"examples": 2000}, "thorough": {"examples": 60000, "shards": 16}}
 SHRINK_LISTS = ("obs", "w")
 TOL = 1e-10
 GTYPES = ["qwc", "commuting", "anticommuting"]
@@ -263,7 +263,7 @@ def check(spec):
             want = D @ M @ D.conj().T
             if np.abs(want - np.diag(np.diag(want))).max() > TOL:
                 raise Viol("diagonalize-not-diagonal", f"gates {gates} do not diagonalise {op}", sig="diag", features=feats)
-            gotm = qp.matrix(dop, wire_order=order) if len(dop.wires) else complex(1.0) * np.eye(dim)
+            gotm = qp.matrix(dop, wire_order=order)
             if not close(gotm, want, TOL):
                 scaled_id = (not P.canon_word(w)) and c != 1.0
                 raise Viol("diagonalize-value", f"{op} -> {dop}: D P D^dag differs by {maxdiff(gotm, want)}",
